@@ -182,6 +182,9 @@ pub enum Step {
     AbandonTimedOut,
     AbandonInflight,
     AbandonInflightStream(usize, usize),
+    /// like AbandonInflightStream, but the search runs behind EntriesOnly (false) or as a collecting
+    /// search() call (true)
+    AbandonInflightAdapted(usize, usize, bool),
 }
 
 impl Step {
@@ -207,6 +210,8 @@ impl Step {
             Step::AbandonTimedOut => "abandon-of-timed-out-op",
             Step::AbandonInflight => "abandon-of-inflight-op",
             Step::AbandonInflightStream(..) => "abandon-of-inflight-stream",
+            Step::AbandonInflightAdapted(_, _, false) => "abandon-of-inflight-stream-behind-entries-only",
+            Step::AbandonInflightAdapted(_, _, true) => "abandon-of-inflight-search()-call",
         }
     }
 }
@@ -247,7 +252,11 @@ pub fn gen_step(rng: &mut Rng) -> Step {
         11 => if rng.bool() { Step::AbandonInflight } else { Step::AbandonInflightZeroTimeout },
         _ => {
             let n = 1 + rng.usize(6);
-            Step::AbandonInflightStream(n, rng.usize(n + 1))
+            match rng.below(3) {
+                0 => Step::AbandonInflightStream(n, rng.usize(n + 1)),
+                1 => Step::AbandonInflightAdapted(n, rng.usize(n + 1), false),
+                _ => Step::AbandonInflightAdapted(n, rng.usize(n + 1), true),
+            }
         }
     }
 }
@@ -403,6 +412,46 @@ pub async fn run_step(ldap: &mut Ldap, other: &mut Ldap, step: &Step, tok: u64, 
             obs.abandon_target = Some(id);
             obs.outcome = o.class();
             obs.waiter = Some(waiter.await.map(|o| o.class()).unwrap_or_else(|_| "task-died".into()));
+        }
+        Step::AbandonInflightAdapted(n, k, collect) => {
+            let mut l2 = ldap.clone();
+            let base = format!("op={},b=hold{}:{}", tok, n, k);
+            let collect = *collect;
+            let waiter = tokio::spawn(async move {
+                if collect {
+                    match world::watchdog(Caught::new(l2.search(&base, Scope::Subtree, "(a=b)", vec!["*"]))).await {
+                        Ok(Ok(Ok(r))) => format!("Ok(entries={},rc={})", r.0.len(), r.1.rc),
+                        Ok(Ok(Err(e))) => format!("Err({})", world::err_class(&e)),
+                        Ok(Err(p)) => format!("panic:{}", p.site()),
+                        Err(()) => "Hung".into(),
+                    }
+                } else {
+                    let adapters: Vec<Box<dyn Adapter<'static, String, Vec<String>>>> = vec![Box::new(EntriesOnly::new())];
+                    let mut st = match l2.streaming_search_with(adapters, &base, Scope::Subtree, "(a=b)", vec!["*".to_string()]).await {
+                        Ok(s) => s,
+                        Err(e) => return format!("start-err:{}", world::err_class(&e)),
+                    };
+                    let mut n = 0;
+                    loop {
+                        match world::watchdog(st.next()).await {
+                            Ok(Ok(Some(_))) => n += 1,
+                            Ok(Ok(None)) => break format!("items={}:end", n),
+                            Ok(Err(e)) => {
+                                let _ = st.finish().await;
+                                break format!("items={}:Err({})", n, world::err_class(&e));
+                            }
+                            Err(()) => break format!("items={}:Hung", n),
+                        }
+                    }
+                }
+            });
+            world::settle().await;
+            // the search is the operation started last
+            let id = ldap.verif_id_table().0;
+            let o = invoke(other, &Call::Abandon(id)).await;
+            obs.abandon_target = Some(id);
+            obs.outcome = o.class();
+            obs.waiter = Some(waiter.await.unwrap_or_else(|_| "task-died".into()));
         }
         Step::AbandonInflightStream(n, k) => {
             let mut l2 = ldap.clone();
